@@ -1,11 +1,11 @@
 //@ needs specs errors stdspecs lebytes anchor_shim state_core authority position_rules managers bit_math swap_handlers(stub) handlers_small tick_math_abs liquidity_manager
 // Handler layer of the small Anchor instructions: lock / close position, fee and protocol-fee collection, reward emissions.
-// The account wrappers are the shims of fragment swap_handlers; every #[account(..)] attribute is dropped and NOT checked.
+// The account wrappers are the shims of fragment swap_handlers; the #[account(..)] attributes become the generated preconditions constraints_<Struct> (K-rules of tools/vx.py).
 pub mod anchor_handlers {
 use vstd::prelude::*;
 use crate::errors::ErrorCode;
 use crate::specs::*;
-use crate::anchor_shim::{Pubkey, Error, Result, err, ax_qmark_anchor, SKey};
+use crate::anchor_shim::{Pubkey, Error, Result, err, ax_qmark_anchor, SKey, SOwner};
 use crate::authority::{authority_rule, copt, verify_position_authority, verify_position_authority_interface, InterfaceAccount, TokenAccount, TokenAccountInterface, Signer, AccountInfo};
 use crate::state_core::{Whirlpool, WhirlpoolRewardInfo, Position, NUM_REWARDS};
 use crate::position_rules::{LockConfig, LockType, LockTypeLabel, PositionBundle, range_valid, bundle_open};
@@ -42,7 +42,11 @@ pub fn burn_and_close_user_position_token<'info>(token_authority: &Signer<'info>
 //@ constraints instructions/close_position.rs ClosePosition
 /// C18 / C04: a position is closed only on its authority's signature and only when it holds no liquidity, no owed fees and no owed rewards
 //@ fn instructions/close_position.rs handler -> r as=close_position_handler tags=C18,C04
+    requires constraints_ClosePosition(old(ctx.accounts)),
     ensures
+        r is Ok ==> old(ctx.accounts).position_token_account.data.mint == old(ctx.accounts).position.data.position_mint && old(ctx.accounts).position_token_account.data.amount == 1, //# C04
+        r is Ok ==> old(ctx.accounts).position_mint.skey() == old(ctx.accounts).position.data.position_mint, //# C18
+       
         r is Ok ==> authority_rule(old(ctx.accounts).position_token_account.data.owner, copt(old(ctx.accounts).position_token_account.data.delegate), old(ctx.accounts).position_token_account.data.delegated_amount,
             *old(ctx.accounts).position_authority.info.key, old(ctx.accounts).position_authority.info.is_signer), //# C04
         r is Ok ==> old(ctx.accounts).position.data.empty(), //# C18
@@ -79,8 +83,14 @@ fn ensure_position_has_enough_rent_for_ticks<'info>(funder: &Signer<'info>, posi
 //@ constraints instructions/collect_fees.rs CollectFees
 /// C07 / C01 / C04: on the authority's signature exactly the owed fees are paid from the pool's vaults to the owner's accounts and the owed amounts are reset to
 /// zero (everything else in the position is unchanged)
-//@ fn instructions/collect_fees.rs handler -> r as=collect_fees_handler tags=C04,C07,C01,C06
+//@ fn instructions/collect_fees.rs handler -> r as=collect_fees_handler tags=C04,C07,C01,C06,C15
+    requires constraints_CollectFees(old(ctx.accounts)),
     ensures
+        r is Ok ==> old(ctx.accounts).position_token_account.data.mint == old(ctx.accounts).position.data.position_mint && old(ctx.accounts).position_token_account.data.amount == 1, //# C04
+        r is Ok ==> old(ctx.accounts).position.data.whirlpool == old(ctx.accounts).whirlpool.skey(), //# C15
+        r is Ok ==> old(ctx.accounts).token_vault_a.skey() == old(ctx.accounts).whirlpool.data.token_vault_a && old(ctx.accounts).token_vault_b.skey() == old(ctx.accounts).whirlpool.data.token_vault_b, //# C15
+        r is Ok ==> old(ctx.accounts).token_owner_account_a.data.mint == old(ctx.accounts).whirlpool.data.token_mint_a && old(ctx.accounts).token_owner_account_b.data.mint == old(ctx.accounts).whirlpool.data.token_mint_b, //# C15
+       
         r is Ok ==> authority_rule(old(ctx.accounts).position_token_account.data.owner, copt(old(ctx.accounts).position_token_account.data.delegate), old(ctx.accounts).position_token_account.data.delegated_amount,
             *old(ctx.accounts).position_authority.info.key, old(ctx.accounts).position_authority.info.is_signer), //# C04
         r is Ok ==> final(ctx.accounts).position.data == (Position { fee_owed_a: 0, fee_owed_b: 0, ..old(ctx.accounts).position.data }), //# C07 C01
@@ -89,13 +99,17 @@ fn ensure_position_has_enough_rent_for_ticks<'info>(funder: &Signer<'info>, posi
 //@ end
 
 // ------------------------------------------------------------------ collect_protocol_fees
-//@ assume WhirlpoolsConfig is an opaque placeholder in this fragment (the collect_protocol_fees handler does not read it; its authority check is an #[account(address = ..)] attribute)
-pub struct WhirlpoolsConfig { pub x: u8 }
+//@ struct state/config.rs WhirlpoolsConfig
 //@ struct instructions/collect_protocol_fees.rs CollectProtocolFees
 //@ constraints instructions/collect_protocol_fees.rs CollectProtocolFees
 /// C06: exactly the protocol's accumulated share is paid out from the two vaults and the counters are reset (nothing else in the pool changes)
-//@ fn instructions/collect_protocol_fees.rs handler -> r as=collect_protocol_fees_handler tags=C06,C01
+//@ fn instructions/collect_protocol_fees.rs handler -> r as=collect_protocol_fees_handler tags=C06,C01,C15,C04
+    requires constraints_CollectProtocolFees(old(ctx.accounts)),
     ensures
+        r is Ok ==> old(ctx.accounts).collect_protocol_fees_authority.skey() == old(ctx.accounts).whirlpools_config.data.collect_protocol_fees_authority && old(ctx.accounts).collect_protocol_fees_authority.info.is_signer && old(ctx.accounts).whirlpool.data.whirlpools_config == old(ctx.accounts).whirlpools_config.skey(), //# C04
+        r is Ok ==> old(ctx.accounts).token_vault_a.skey() == old(ctx.accounts).whirlpool.data.token_vault_a && old(ctx.accounts).token_vault_b.skey() == old(ctx.accounts).whirlpool.data.token_vault_b, //# C15
+        r is Ok ==> old(ctx.accounts).token_destination_a.data.mint == old(ctx.accounts).whirlpool.data.token_mint_a && old(ctx.accounts).token_destination_b.data.mint == old(ctx.accounts).whirlpool.data.token_mint_b, //# C15
+       
         r is Ok ==> final(ctx.accounts).whirlpool.data == (Whirlpool { protocol_fee_owed_a: 0, protocol_fee_owed_b: 0, ..old(ctx.accounts).whirlpool.data }),
         r is Ok ==> moved(old(ctx.accounts).token_vault_a.k, old(ctx.accounts).token_destination_a.k, old(ctx.accounts).whirlpool.data.protocol_fee_owed_a)
             && moved(old(ctx.accounts).token_vault_b.k, old(ctx.accounts).token_destination_b.k, old(ctx.accounts).whirlpool.data.protocol_fee_owed_b),
@@ -109,8 +123,10 @@ pub fn position_seeds_shim() -> (r: &'static [&'static [u8]]) { unimplemented!()
 /// C18 / C04: only a position WITH LIQUIDITY can be locked (so that a locked position can never become empty and hence never be closed or re-ranged), on its
 /// authority's signature; locking freezes the position token account and records position, owner and pool in the lock config
 //@ fn instructions/lock_position.rs handler -> r as=lock_position_handler tags=C18,C04
-    requires !old(ctx.accounts).position_token_account.data.frozen, // enforced by the (dropped) account constraint `!position_token_account.is_frozen()`
+    requires constraints_LockPosition(old(ctx.accounts)),
     ensures
+        r is Ok ==> old(ctx.accounts).position_token_account.data.mint == old(ctx.accounts).position.data.position_mint && old(ctx.accounts).position_token_account.data.amount == 1, //# C04
+        r is Ok ==> old(ctx.accounts).position.data.whirlpool == old(ctx.accounts).whirlpool.skey() && old(ctx.accounts).position_mint.skey() == old(ctx.accounts).position.data.position_mint, //# C18
         r is Ok ==> authority_rule(old(ctx.accounts).position_token_account.data.owner, copt(old(ctx.accounts).position_token_account.data.delegate), old(ctx.accounts).position_token_account.data.delegated_amount,
             *old(ctx.accounts).position_authority.info.key, old(ctx.accounts).position_authority.info.is_signer), //# C04
         r is Ok ==> old(ctx.accounts).position.data.liquidity > 0, //# C18
@@ -136,20 +152,32 @@ pub open spec fn set_emissions_post(w0: Whirlpool, w1: Whirlpool, vault_amount: 
     &&& (forall|k: int| 0 <= k < 3 ==> #[trigger] w1.reward_infos[k] == (WhirlpoolRewardInfo { growth_global_x64: next_growth(w0, ts as int, k), emissions_per_second_x64: if k == reward_index { rate } else { w0.reward_infos[k].emissions_per_second_x64 }, ..w0.reward_infos[k] }))
     &&& w1 == (Whirlpool { reward_infos: w1.reward_infos, reward_last_updated_timestamp: ts, ..w0 })
 }
-//@ fn instructions/set_reward_emissions.rs handler -> r as=set_reward_emissions_handler tags=C11
-    ensures r is Ok ==> set_emissions_post(old(ctx.accounts).whirlpool.data, final(ctx.accounts).whirlpool.data, old(ctx.accounts).reward_vault.data.amount, reward_index, emissions_per_second_x64),
+//@ fn instructions/set_reward_emissions.rs handler -> r as=set_reward_emissions_handler tags=C11,C04,C15
+    requires constraints_SetRewardEmissions(old(ctx.accounts), reward_index),
+    ensures
+        r is Ok ==> old(ctx.accounts).reward_authority.skey() == old(ctx.accounts).whirlpool.data.reward_authority_spec() && old(ctx.accounts).reward_authority.info.is_signer, //# C04
+        r is Ok ==> old(ctx.accounts).reward_vault.skey() == old(ctx.accounts).whirlpool.data.reward_infos[reward_index as int].vault, //# C15
+        r is Ok ==> set_emissions_post(old(ctx.accounts).whirlpool.data, final(ctx.accounts).whirlpool.data, old(ctx.accounts).reward_vault.data.amount, reward_index, emissions_per_second_x64),
 //@ end
-//@ fn instructions/v2/set_reward_emissions.rs handler -> r as=set_reward_emissions_v2_handler tags=C11
-    ensures r is Ok ==> set_emissions_post(old(ctx.accounts).whirlpool.data, final(ctx.accounts).whirlpool.data, old(ctx.accounts).reward_vault.data.amount, reward_index, emissions_per_second_x64),
+//@ fn instructions/v2/set_reward_emissions.rs handler -> r as=set_reward_emissions_v2_handler tags=C11,C04,C15
+    requires constraints_SetRewardEmissionsV2(old(ctx.accounts), reward_index),
+    ensures
+        r is Ok ==> old(ctx.accounts).reward_authority.skey() == old(ctx.accounts).whirlpool.data.reward_authority_spec() && old(ctx.accounts).reward_authority.info.is_signer, //# C04
+        r is Ok ==> old(ctx.accounts).reward_vault.skey() == old(ctx.accounts).whirlpool.data.reward_infos[reward_index as int].vault, //# C15
+        r is Ok ==> set_emissions_post(old(ctx.accounts).whirlpool.data, final(ctx.accounts).whirlpool.data, old(ctx.accounts).reward_vault.data.amount, reward_index, emissions_per_second_x64),
 //@ end
 
 // ------------------------------------------------------------------ collect_reward
 //@ struct instructions/collect_reward.rs CollectReward
 //@ constraints instructions/collect_reward.rs CollectReward
 /// C11 / C04: on the authority's signature min(owed, vault balance) of the indexed reward is paid from the reward vault and the rest stays owed
-//@ fn instructions/collect_reward.rs handler -> r as=collect_reward_handler tags=C11,C04
-    requires reward_index < 3, // an index above 2 panics on the array access (the transaction fails)
+//@ fn instructions/collect_reward.rs handler -> r as=collect_reward_handler tags=C11,C04,C15
+    requires constraints_CollectReward(old(ctx.accounts), reward_index), reward_index < 3, // an index above 2 panics on the array access (the transaction fails)
     ensures
+        r is Ok ==> old(ctx.accounts).position_token_account.data.mint == old(ctx.accounts).position.data.position_mint && old(ctx.accounts).position_token_account.data.amount == 1, //# C04
+        r is Ok ==> old(ctx.accounts).position.data.whirlpool == old(ctx.accounts).whirlpool.skey(), //# C15
+        r is Ok ==> old(ctx.accounts).reward_vault.skey() == old(ctx.accounts).whirlpool.data.reward_infos[reward_index as int].vault, //# C15
+        r is Ok ==> old(ctx.accounts).reward_owner_account.data.mint == old(ctx.accounts).whirlpool.data.reward_infos[reward_index as int].mint, //# C15
         r is Ok ==> authority_rule(old(ctx.accounts).position_token_account.data.owner, copt(old(ctx.accounts).position_token_account.data.delegate), old(ctx.accounts).position_token_account.data.delegated_amount,
             *old(ctx.accounts).position_authority.info.key, old(ctx.accounts).position_authority.info.is_signer), //# C04
         r is Ok ==> ({ let owed = old(ctx.accounts).position.data.reward_infos[reward_index as int].amount_owed; let paid = min_i(owed as int, old(ctx.accounts).reward_vault.data.amount as int);
@@ -192,7 +220,7 @@ pub open spec fn opened_ok(w: Account<'_, Whirlpool>, mint: Pubkey, lo_in: i32, 
 //@ struct instructions/open_position.rs OpenPosition
 //@ constraints instructions/open_position.rs OpenPosition
 //@ fn instructions/open_position.rs handler -> r as=open_position_handler tags=C18
-    requires old(ctx.accounts).whirlpool.data.tick_spacing > 0, price_ok(old(ctx.accounts).whirlpool.data.sqrt_price as int),
+    requires constraints_OpenPosition(old(ctx.accounts)), old(ctx.accounts).whirlpool.data.tick_spacing > 0, price_ok(old(ctx.accounts).whirlpool.data.sqrt_price as int),
     ensures
         r is Ok ==> opened_ok(*old(ctx.accounts).whirlpool, old(ctx.accounts).position_mint.k, tick_lower_index, tick_upper_index, final(ctx.accounts).position.data),
         r is Ok ==> !ext_required(old(ctx.accounts).whirlpool.data),
@@ -201,9 +229,10 @@ pub open spec fn opened_ok(w: Account<'_, Whirlpool>, mint: Pubkey, lo_in: i32, 
 //@ end
 //@ struct instructions/open_bundled_position.rs OpenBundledPosition
 //@ constraints instructions/open_bundled_position.rs OpenBundledPosition
-//@ fn instructions/open_bundled_position.rs handler -> r as=open_bundled_position_handler tags=C18
-    requires old(ctx.accounts).whirlpool.data.tick_spacing > 0, price_ok(old(ctx.accounts).whirlpool.data.sqrt_price as int),
+//@ fn instructions/open_bundled_position.rs handler -> r as=open_bundled_position_handler tags=C18,C04
+    requires constraints_OpenBundledPosition(old(ctx.accounts)), old(ctx.accounts).whirlpool.data.tick_spacing > 0, price_ok(old(ctx.accounts).whirlpool.data.sqrt_price as int),
     ensures
+        r is Ok ==> old(ctx.accounts).position_bundle_token_account.data.mint == old(ctx.accounts).position_bundle.data.position_bundle_mint && old(ctx.accounts).position_bundle_token_account.data.amount == 1, //# C04
         r is Ok ==> opened_ok(*old(ctx.accounts).whirlpool, old(ctx.accounts).position_bundle.data.position_bundle_mint, tick_lower_index, tick_upper_index, final(ctx.accounts).bundled_position.data), //# C18
         r is Ok ==> !ext_required(old(ctx.accounts).whirlpool.data), //# C18
         r is Ok ==> authority_rule(old(ctx.accounts).position_bundle_token_account.data.owner, copt(old(ctx.accounts).position_bundle_token_account.data.delegate), old(ctx.accounts).position_bundle_token_account.data.delegated_amount,
@@ -224,8 +253,15 @@ pub mod transfer_memo {
 //@ subst /calculate_collect_reward\(\n/ => /calculate_collect_reward_v2(\n/
 //@ struct instructions/v2/collect_fees.rs CollectFeesV2
 //@ constraints instructions/v2/collect_fees.rs CollectFeesV2
-//@ fn instructions/v2/collect_fees.rs handler -> r as=collect_fees_v2_handler tags=C04,C07,C01,C06
+//@ fn instructions/v2/collect_fees.rs handler -> r as=collect_fees_v2_handler tags=C04,C07,C01,C06,C15
+    requires constraints_CollectFeesV2(old(ctx.accounts)),
     ensures
+        r is Ok ==> old(ctx.accounts).position_token_account.data.mint == old(ctx.accounts).position.data.position_mint && old(ctx.accounts).position_token_account.data.amount == 1, //# C04
+        r is Ok ==> old(ctx.accounts).position.data.whirlpool == old(ctx.accounts).whirlpool.skey(), //# C15
+        r is Ok ==> old(ctx.accounts).token_vault_a.skey() == old(ctx.accounts).whirlpool.data.token_vault_a && old(ctx.accounts).token_vault_b.skey() == old(ctx.accounts).whirlpool.data.token_vault_b, //# C15
+        r is Ok ==> old(ctx.accounts).token_owner_account_a.data.mint == old(ctx.accounts).whirlpool.data.token_mint_a && old(ctx.accounts).token_owner_account_b.data.mint == old(ctx.accounts).whirlpool.data.token_mint_b, //# C15
+        r is Ok ==> old(ctx.accounts).token_mint_a.skey() == old(ctx.accounts).whirlpool.data.token_mint_a && old(ctx.accounts).token_mint_b.skey() == old(ctx.accounts).whirlpool.data.token_mint_b && old(ctx.accounts).token_program_a.skey() == old(ctx.accounts).token_mint_a.data.owner_program && old(ctx.accounts).token_program_b.skey() == old(ctx.accounts).token_mint_b.data.owner_program, //# C15
+       
         r is Ok ==> authority_rule(old(ctx.accounts).position_token_account.data.owner, copt(old(ctx.accounts).position_token_account.data.delegate), old(ctx.accounts).position_token_account.data.delegated_amount,
             *old(ctx.accounts).position_authority.info.key, old(ctx.accounts).position_authority.info.is_signer), //# C04
         r is Ok ==> final(ctx.accounts).position.data == (Position { fee_owed_a: 0, fee_owed_b: 0, ..old(ctx.accounts).position.data }), //# C07 C01
@@ -234,17 +270,28 @@ pub mod transfer_memo {
 //@ end
 //@ struct instructions/v2/collect_protocol_fees.rs CollectProtocolFeesV2
 //@ constraints instructions/v2/collect_protocol_fees.rs CollectProtocolFeesV2
-//@ fn instructions/v2/collect_protocol_fees.rs handler -> r as=collect_protocol_fees_v2_handler tags=C06,C01
+//@ fn instructions/v2/collect_protocol_fees.rs handler -> r as=collect_protocol_fees_v2_handler tags=C06,C01,C15,C04
+    requires constraints_CollectProtocolFeesV2(old(ctx.accounts)),
     ensures
+        r is Ok ==> old(ctx.accounts).collect_protocol_fees_authority.skey() == old(ctx.accounts).whirlpools_config.data.collect_protocol_fees_authority && old(ctx.accounts).collect_protocol_fees_authority.info.is_signer && old(ctx.accounts).whirlpool.data.whirlpools_config == old(ctx.accounts).whirlpools_config.skey(), //# C04
+        r is Ok ==> old(ctx.accounts).token_vault_a.skey() == old(ctx.accounts).whirlpool.data.token_vault_a && old(ctx.accounts).token_vault_b.skey() == old(ctx.accounts).whirlpool.data.token_vault_b, //# C15
+        r is Ok ==> old(ctx.accounts).token_destination_a.data.mint == old(ctx.accounts).whirlpool.data.token_mint_a && old(ctx.accounts).token_destination_b.data.mint == old(ctx.accounts).whirlpool.data.token_mint_b, //# C15
+        r is Ok ==> old(ctx.accounts).token_mint_a.skey() == old(ctx.accounts).whirlpool.data.token_mint_a && old(ctx.accounts).token_mint_b.skey() == old(ctx.accounts).whirlpool.data.token_mint_b && old(ctx.accounts).token_program_a.skey() == old(ctx.accounts).token_mint_a.data.owner_program && old(ctx.accounts).token_program_b.skey() == old(ctx.accounts).token_mint_b.data.owner_program, //# C15
+       
         r is Ok ==> final(ctx.accounts).whirlpool.data == (Whirlpool { protocol_fee_owed_a: 0, protocol_fee_owed_b: 0, ..old(ctx.accounts).whirlpool.data }),
         r is Ok ==> moved(*old(ctx.accounts).token_vault_a.info.key, *old(ctx.accounts).token_destination_a.info.key, old(ctx.accounts).whirlpool.data.protocol_fee_owed_a)
             && moved(*old(ctx.accounts).token_vault_b.info.key, *old(ctx.accounts).token_destination_b.info.key, old(ctx.accounts).whirlpool.data.protocol_fee_owed_b),
 //@ end
 //@ struct instructions/v2/collect_reward.rs CollectRewardV2
 //@ constraints instructions/v2/collect_reward.rs CollectRewardV2
-//@ fn instructions/v2/collect_reward.rs handler -> r as=collect_reward_v2_handler tags=C11,C04
-    requires reward_index < 3,
+//@ fn instructions/v2/collect_reward.rs handler -> r as=collect_reward_v2_handler tags=C11,C04,C15
+    requires constraints_CollectRewardV2(old(ctx.accounts), reward_index), reward_index < 3,
     ensures
+        r is Ok ==> old(ctx.accounts).position_token_account.data.mint == old(ctx.accounts).position.data.position_mint && old(ctx.accounts).position_token_account.data.amount == 1, //# C04
+        r is Ok ==> old(ctx.accounts).position.data.whirlpool == old(ctx.accounts).whirlpool.skey(), //# C15
+        r is Ok ==> old(ctx.accounts).reward_vault.skey() == old(ctx.accounts).whirlpool.data.reward_infos[reward_index as int].vault, //# C15
+        r is Ok ==> old(ctx.accounts).reward_owner_account.data.mint == old(ctx.accounts).whirlpool.data.reward_infos[reward_index as int].mint, //# C15
+        r is Ok ==> old(ctx.accounts).reward_mint.skey() == old(ctx.accounts).whirlpool.data.reward_infos[reward_index as int].mint && old(ctx.accounts).reward_token_program.skey() == old(ctx.accounts).reward_mint.data.owner_program, //# C15
         r is Ok ==> authority_rule(old(ctx.accounts).position_token_account.data.owner, copt(old(ctx.accounts).position_token_account.data.delegate), old(ctx.accounts).position_token_account.data.delegated_amount,
             *old(ctx.accounts).position_authority.info.key, old(ctx.accounts).position_authority.info.is_signer), //# C04
         r is Ok ==> ({ let owed = old(ctx.accounts).position.data.reward_infos[reward_index as int].amount_owed; let paid = min_i(owed as int, old(ctx.accounts).reward_vault.data.amount as int);
@@ -276,7 +323,10 @@ pub fn load_tick_array(account: &UncheckedAccount<'_>, whirlpool: &Pubkey) -> (r
 /// C07 / C11: the position's fee and reward checkpoints and owed amounts are refreshed by the zero-delta computation on the position's own bound ticks (read from
 /// tick arrays loaded against THIS pool), and the pool's reward growths are settled up to now; liquidity and everything else stay as they are
 //@ fn instructions/update_fees_and_rewards.rs handler -> r as=update_fees_and_rewards_handler tags=C07,C11,C15
+    requires constraints_UpdateFeesAndRewards(old(ctx.accounts)),
     ensures
+        r is Ok ==> old(ctx.accounts).position.data.whirlpool == old(ctx.accounts).whirlpool.skey(), //# C15
+       
         r is Ok ==> ta_loaded(*old(ctx.accounts).tick_array_lower.k, old(ctx.accounts).whirlpool.k) && ta_loaded(*old(ctx.accounts).tick_array_upper.k, old(ctx.accounts).whirlpool.k), //# C15
         r is Ok ==> now_unix() >= 0 && exists|tl: crate::state_core::Tick, tu: crate::state_core::Tick, lv: bool, uv: bool, pu: crate::state_core::PositionUpdate, ri: [WhirlpoolRewardInfo; NUM_REWARDS]|
             #[trigger] refresh_spec(old(ctx.accounts).whirlpool.data, old(ctx.accounts).position.data, tl, tu, lv, uv, now_unix() as u64 as int, pu, ri)
@@ -289,62 +339,70 @@ pub fn load_tick_array(account: &UncheckedAccount<'_>, whirlpool: &Pubkey) -> (r
 // ------------------------------------------------------------------ reachability canaries (vacuity guard, see tools/run.py)
 /// reachability canary (must FAIL): the same body with the contract 'never succeeds'
 //@ fn instructions/close_position.rs handler -> r as=reach_canary_close_position_handler tags=C18,C04
+    requires constraints_ClosePosition(old(ctx.accounts)),
     ensures r is Err,
 //@ end
 /// reachability canary (must FAIL): the same body with the contract 'never succeeds'
-//@ fn instructions/collect_fees.rs handler -> r as=reach_canary_collect_fees_handler tags=C04,C07,C01,C06
+//@ fn instructions/collect_fees.rs handler -> r as=reach_canary_collect_fees_handler tags=C04,C07,C01,C06,C15
+    requires constraints_CollectFees(old(ctx.accounts)),
     ensures r is Err,
 //@ end
 /// reachability canary (must FAIL): the same body with the contract 'never succeeds'
-//@ fn instructions/collect_protocol_fees.rs handler -> r as=reach_canary_collect_protocol_fees_handler tags=C06,C01
+//@ fn instructions/collect_protocol_fees.rs handler -> r as=reach_canary_collect_protocol_fees_handler tags=C06,C01,C15,C04
+    requires constraints_CollectProtocolFees(old(ctx.accounts)),
     ensures r is Err,
 //@ end
 /// reachability canary (must FAIL): the same body with the contract 'never succeeds'
 //@ fn instructions/lock_position.rs handler -> r as=reach_canary_lock_position_handler tags=C18,C04
-    requires !old(ctx.accounts).position_token_account.data.frozen, // enforced by the (dropped) account constraint `!position_token_account.is_frozen()`
+    requires constraints_LockPosition(old(ctx.accounts)),
     ensures r is Err,
 //@ rewrite /&\[\s*b"position"\.as_ref\(\),[^\]]*\[ctx\.bumps\.position\],\s*\]/ => /position_seeds_shim()/
 //@ end
 /// reachability canary (must FAIL): the same body with the contract 'never succeeds'
-//@ fn instructions/set_reward_emissions.rs handler -> r as=reach_canary_set_reward_emissions_handler tags=C11
+//@ fn instructions/set_reward_emissions.rs handler -> r as=reach_canary_set_reward_emissions_handler tags=C11,C04,C15
+    requires constraints_SetRewardEmissions(old(ctx.accounts), reward_index),
     ensures r is Err,
 //@ end
 /// reachability canary (must FAIL): the same body with the contract 'never succeeds'
-//@ fn instructions/v2/set_reward_emissions.rs handler -> r as=reach_canary_set_reward_emissions_v2_handler tags=C11
+//@ fn instructions/v2/set_reward_emissions.rs handler -> r as=reach_canary_set_reward_emissions_v2_handler tags=C11,C04,C15
+    requires constraints_SetRewardEmissionsV2(old(ctx.accounts), reward_index),
     ensures r is Err,
 //@ end
 /// reachability canary (must FAIL): the same body with the contract 'never succeeds'
-//@ fn instructions/collect_reward.rs handler -> r as=reach_canary_collect_reward_handler tags=C11,C04
-    requires reward_index < 3, // an index above 2 panics on the array access (the transaction fails)
+//@ fn instructions/collect_reward.rs handler -> r as=reach_canary_collect_reward_handler tags=C11,C04,C15
+    requires constraints_CollectReward(old(ctx.accounts), reward_index), reward_index < 3, // an index above 2 panics on the array access (the transaction fails)
     ensures r is Err,
 //@ end
 /// reachability canary (must FAIL): the same body with the contract 'never succeeds'
 //@ fn instructions/open_position.rs handler -> r as=reach_canary_open_position_handler tags=C18
-    requires old(ctx.accounts).whirlpool.data.tick_spacing > 0, price_ok(old(ctx.accounts).whirlpool.data.sqrt_price as int),
+    requires constraints_OpenPosition(old(ctx.accounts)), old(ctx.accounts).whirlpool.data.tick_spacing > 0, price_ok(old(ctx.accounts).whirlpool.data.sqrt_price as int),
     ensures r is Err,
 //@ rewrite /emit!\(PositionOpened \{/ => /emit_position_opened(PositionOpened {/
 //@ end
 /// reachability canary (must FAIL): the same body with the contract 'never succeeds'
-//@ fn instructions/open_bundled_position.rs handler -> r as=reach_canary_open_bundled_position_handler tags=C18
-    requires old(ctx.accounts).whirlpool.data.tick_spacing > 0, price_ok(old(ctx.accounts).whirlpool.data.sqrt_price as int),
+//@ fn instructions/open_bundled_position.rs handler -> r as=reach_canary_open_bundled_position_handler tags=C18,C04
+    requires constraints_OpenBundledPosition(old(ctx.accounts)), old(ctx.accounts).whirlpool.data.tick_spacing > 0, price_ok(old(ctx.accounts).whirlpool.data.sqrt_price as int),
     ensures r is Err,
 //@ rewrite /emit!\(PositionOpened \{/ => /emit_position_opened(PositionOpened {/
 //@ end
 /// reachability canary (must FAIL): the same body with the contract 'never succeeds'
-//@ fn instructions/v2/collect_fees.rs handler -> r as=reach_canary_collect_fees_v2_handler tags=C04,C07,C01,C06
+//@ fn instructions/v2/collect_fees.rs handler -> r as=reach_canary_collect_fees_v2_handler tags=C04,C07,C01,C06,C15
+    requires constraints_CollectFeesV2(old(ctx.accounts)),
     ensures r is Err,
 //@ end
 /// reachability canary (must FAIL): the same body with the contract 'never succeeds'
-//@ fn instructions/v2/collect_protocol_fees.rs handler -> r as=reach_canary_collect_protocol_fees_v2_handler tags=C06,C01
+//@ fn instructions/v2/collect_protocol_fees.rs handler -> r as=reach_canary_collect_protocol_fees_v2_handler tags=C06,C01,C15,C04
+    requires constraints_CollectProtocolFeesV2(old(ctx.accounts)),
     ensures r is Err,
 //@ end
 /// reachability canary (must FAIL): the same body with the contract 'never succeeds'
-//@ fn instructions/v2/collect_reward.rs handler -> r as=reach_canary_collect_reward_v2_handler tags=C11,C04
-    requires reward_index < 3,
+//@ fn instructions/v2/collect_reward.rs handler -> r as=reach_canary_collect_reward_v2_handler tags=C11,C04,C15
+    requires constraints_CollectRewardV2(old(ctx.accounts), reward_index), reward_index < 3,
     ensures r is Err,
 //@ end
 /// reachability canary (must FAIL): the same body with the contract 'never succeeds'
 //@ fn instructions/update_fees_and_rewards.rs handler -> r as=reach_canary_update_fees_and_rewards_handler tags=C07,C11,C15
+    requires constraints_UpdateFeesAndRewards(old(ctx.accounts)),
     ensures r is Err,
 //@ end
 }
